@@ -133,8 +133,12 @@ def sany(module_path):
 
 
 # ----------------------------------------------------------------------------- names
+def is_term_name(k):
+    return 0 < k < 10 or 100 <= k < 1000
+
+
 def tname(k):
-    return "error" if k == 0 else "$eof" if k == -1 else "$S" if k == -2 else ("t%d" % k if k < 10 else "N%d" % k)
+    return "error" if k == 0 else "$eof" if k == -1 else "$S" if k == -2 else ("t%d" % k if is_term_name(k) else "N%d" % k)
 
 
 CODEMAPS = {
